@@ -1,0 +1,92 @@
+//go:build verif
+
+// Contracts for the verification machinery in /verif (comment-only; no declarations).
+// C04: teardown of swarm streams and connections releases the stream scope exactly once, closes the
+// underlying connection and resets every stream.
+
+package swarm
+
+//@ lockinv Conn.streams(c *Conn) = forall s *Stream :: has(c.streams.m, s) ==> s != nil && s.conn == c
+
+//@ func (c *Conn) removeStream
+//@ prop C04
+//@ requires s != nil && s.conn == c
+//@ ensures ghost.done(s.scope)
+//@ ensures !has(c.streams.m, s)
+//@ ensures c.stat.NumStreams == old(c.stat.NumStreams) - 1
+//@ ensures forall x int :: old(ghost.done(x)) ==> ghost.done(x)
+//@ ensures forall x network.StreamManagementScope :: x != s.scope && !old(ghost.done(x)) ==> !ghost.done(x)
+//@ modifies c.stat.NumStreams, contents(c.streams.m), ghost.done(_)
+
+//@ func (s *Stream) closeAndRemoveStream
+//@ prop C04
+//@ requires s.conn != nil
+//@ ensures s.isClosed
+//@ ensures s.acceptStreamGoroutineCompleted == old(s.acceptStreamGoroutineCompleted)
+//@ ensures !old(s.isClosed) && s.acceptStreamGoroutineCompleted ==> ghost.done(s.scope) && !has(s.conn.streams.m, s) &&
+//@         s.conn.stat.NumStreams == old(s.conn.stat.NumStreams) - 1
+//@ ensures old(s.isClosed) || !s.acceptStreamGoroutineCompleted ==> s.conn.stat.NumStreams == old(s.conn.stat.NumStreams) &&
+//@         (forall x int :: ghost.done(x) == old(ghost.done(x)))
+//@ ensures forall x int :: old(ghost.done(x)) ==> ghost.done(x)
+//@ modifies s.isClosed, s.conn.stat.NumStreams, contents(s.conn.streams.m), ghost.done(_)
+
+//@ func (s *Stream) completeAcceptStreamGoroutine
+//@ prop C04
+//@ requires s.conn != nil
+//@ ensures s.acceptStreamGoroutineCompleted
+//@ ensures s.isClosed == old(s.isClosed)
+//@ ensures !old(s.acceptStreamGoroutineCompleted) && s.isClosed ==> ghost.done(s.scope) && !has(s.conn.streams.m, s) &&
+//@         s.conn.stat.NumStreams == old(s.conn.stat.NumStreams) - 1
+//@ ensures old(s.acceptStreamGoroutineCompleted) || !s.isClosed ==> s.conn.stat.NumStreams == old(s.conn.stat.NumStreams) &&
+//@         (forall x int :: ghost.done(x) == old(ghost.done(x)))
+//@ modifies s.acceptStreamGoroutineCompleted, s.conn.stat.NumStreams, contents(s.conn.streams.m), ghost.done(_)
+
+//@ func (s *Stream) Close
+//@ prop C04
+//@ requires s.conn != nil
+//@ ensures s.isClosed && called(Close, 0) && arg(Close, 0, 0) == s.stream
+//@ ensures s.acceptStreamGoroutineCompleted ==> ghost.done(s.scope)  || old(s.isClosed)
+//@ modifies s.isClosed, s.conn.stat.NumStreams, contents(s.conn.streams.m), ghost.done(_)
+
+//@ func (s *Stream) Reset
+//@ prop C04
+//@ requires s.conn != nil
+//@ ensures s.isClosed && ghost.reset(s.stream)
+//@ ensures s.acceptStreamGoroutineCompleted ==> ghost.done(s.scope) || old(s.isClosed)
+//@ ensures forall x int :: old(ghost.done(x)) ==> ghost.done(x)
+//@ modifies s.isClosed, s.conn.stat.NumStreams, contents(s.conn.streams.m), ghost.done(_), ghost.reset(s.stream)
+
+//@ func (s *Stream) ResetWithError
+//@ prop C04
+//@ requires s.conn != nil
+//@ ensures s.isClosed && called(ResetWithError, 0) && arg(ResetWithError, 0, 0) == s.stream && arg(ResetWithError, 0, 1) == errCode
+//@ ensures s.acceptStreamGoroutineCompleted ==> ghost.done(s.scope) || old(s.isClosed)
+//@ modifies s.isClosed, s.conn.stat.NumStreams, contents(s.conn.streams.m), ghost.done(_)
+
+//@ func (c *Conn) doClose
+//@ prop C04
+//@ ensures c.streams.m == nil
+//@ ensures ghost.closed(c.conn)
+//@ ensures errCode == 0 ==> called(Close, 0) && arg(Close, 0, 0) == c.conn
+//@ ensures errCode != 0 ==> called(CloseWithError, 0) && arg(CloseWithError, 0, 0) == c.conn && arg(CloseWithError, 0, 1) == errCode
+//@ ensures forall s *Stream :: old(has(c.streams.m, s)) ==> s.isClosed && ghost.reset(s.stream)
+//@ ensures called(removeConn, 0) && arg(removeConn, 0, 1) == c
+//@ loop 0 invariant forall s *Stream :: has(streams, s) ==> s != nil && s.conn == c
+//@ loop 0 invariant forall s *Stream :: has(streams, s) == old(has(c.streams.m, s))
+//@ loop 0 invariant forall s *Stream :: visited(0, s) ==> s.isClosed && ghost.reset(s.stream)
+//@ loop 0 invariant c.streams.m == nil && ghost.closed(c.conn) && c.conn == old(c.conn) && streams == old(c.streams.m)
+//@ noframe
+
+//@ func (c *Conn) start
+//@ prop C04
+//@ modifies nothing
+//@ closure 0
+//@ loop 0 invariant called(OpenStream, 0) && ret(OpenStream, 0, 1) != nil ==>
+//@         called(ResetWithError, 0) && arg(ResetWithError, 0, 0) == ret(AcceptStream, 0, 0)
+//@ ensures called(Close, 0) && arg(Close, 0, 0) == c
+//@ noframe
+//@ closure 1
+//@ ensures called(addStream, 0) && arg(addStream, 0, 1) == ts && arg(addStream, 0, 3) == scope
+//@ ensures ret(addStream, 0, 1) != nil ==> ghost.done(scope)
+//@ ensures ret(addStream, 0, 1) == nil ==> called(completeAcceptStreamGoroutine, 0) && arg(completeAcceptStreamGoroutine, 0, 0) == ret(addStream, 0, 0)
+//@ noframe
